@@ -30,6 +30,7 @@ def run(ctx):
         codecs20.search(ctx)
         from .. import querycamp     # interleaved non-audio calls (chunk / string / metadata queries, SFC_CALC_*, …) do not move the audio position
         querycamp.run(ctx, "C06")
+        from .. import queryfix; queryfix.run(ctx, "C06")      # a chunk query between two reads at a position != 0, EVERY codec of every chunk-carrying container (deterministic)
         from .. import foreignread   # FOREIGN-BUT-VALID layouts: seeks and partitions on files whose data offset / data end come from parser steps the library's writer never exercises
         foreignread.run(ctx, "C06")
         from .. import handleg       # (round 9) the GENERIC handle machine Sf.HandleG: whole histories on AIFF / CAF / W64 / AVR / IRCAM / PAF / HTK (+ RAW / AU / WAV) byte for byte incl. store dumps
